@@ -46,6 +46,9 @@ def judge(c, transfer, size, thr, prev=False, cancelled=False, provide_size=Fals
     ok = st == 'ok'
     if st in ('notdone', 'notannounced'):
         out.append('c04: future not done at quiescence (%s)' % st)
+        if env.delivered is not None:
+            out.append('c03: a fault was delivered but result() neither raises nor returns (done never announced)')
+        out.append('c08: on_done never ran (done never announced)')
         return out
     # ---- C03
     if env.delivered is not None:
